@@ -6,7 +6,7 @@ PROPERTY = "C04"
 CLAUSES = ["C04.deliver", "C04.order", "C04.urgent", "C04.detach", "C04.keep", "C04.refuse", "C04.started"]
 RULE = ("every process program of <= D executed instructions over {return, raise, timeout(0|1|2), wait/succeed a shared "
         "event, interrupt peer, interrupt self, join, spawn} where an interrupted process chooses between going on and "
-        "waiting for the same target again; non-trivial = at least one interrupt was delivered; distinct = distinct logs")
+        "waiting for the same target again (one configuration uses the legal falsy causes 0, '' and ()); plus victims whose target is a condition event (all_of / any_of over a timeout and a shared event), interrupted 1-2 times at chosen instants, with or without a co-waiter, re-yielding the same condition object; non-trivial = at least one interrupt was delivered; distinct = distinct logs")
 ASSUMPTIONS = [
     "a created-but-not-started process is live: interrupting it must be accepted and delivered after its first statement",
     "detachment is observed through unique value tags: a process resumed by an abandoned target would receive a value that "
@@ -21,12 +21,14 @@ MAP2 = {"once": "C04.detach", "value": "C04.detach", "processed": "C04.keep", "t
 def plan(tier, seed):
     quick = tier == "quick"
     d = 6 if quick else 7
-    cfgs = [dict(depth=d, nproc=2), dict(depth=d - 1, nproc=3)]
+    cfgs = [dict(depth=d, nproc=2), dict(depth=d - 1, nproc=3), dict(depth=d - 1, nproc=2, falsy=1), dict(kind="cond")]
     return {"cfgs": cfgs, "budget": None, "bound": "D<=%d with 2 initial processes, D<=%d with 3; <=4 processes (reactions count as instructions)" % (d, d - 1)}
 
 
 def execute(ch, cfg):
-    k = KC.K(ch, OPS, cfg["depth"], nproc=cfg["nproc"], reaction=True).run()
+    if cfg.get("kind") == "cond":
+        return exec_cond(ch, cfg)
+    k = KC.K(ch, OPS, cfg["depth"], nproc=cfg["nproc"], reaction=True, falsy_causes=bool(cfg.get("falsy"))).run()
     res = Result()
     res.digest = k.digest()
     viol, nt = KC.check_interrupts(k)
@@ -44,4 +46,91 @@ def execute(ch, cfg):
                 res.bad(MAP2[g], shape, msg)
             elif g == "crash" and k.crashed is not None and k.crashed[1] != "Err":
                 res.bad("C04.deliver", "run-raised-%s" % k.crashed[1], msg)
+    return res
+
+
+def exec_cond(ch, cfg):
+    """a victim waits on a condition, is interrupted, yields the same condition again: the condition keeps working"""
+    from onl.sim import Environment, Interrupt
+    res = Result()
+    env = Environment()
+    kind = ch.choose(2, lambda c: ["all_of", "any_of"][c], free=True)
+    tdelay = 1 + ch.choose(3, lambda c: "timeout operand %d" % (c + 1), free=True)
+    etime = ch.choose(4, lambda c: "shared-event operand succeeds at %d" % c, free=True)
+    nintr = 1 + ch.choose(2, lambda c: "%d interrupt(s)" % (c + 1), free=True)
+    itimes = [ch.choose(4, lambda c, i=i: "interrupt %d at t=%d" % (i, c), free=True) for i in range(nintr)]
+    cow = ch.choose(2, lambda c: "co-waiter on the condition: %s" % bool(c), free=True)
+    order = ch.choose(2, lambda c: "interrupter created %s the victim" % ("before" if c else "after"), free=True)
+    log = []
+    ev = env.event()
+    holder = {}
+
+    def victim():
+        t = env.timeout(tdelay, value="tv")
+        cond = env.all_of([t, ev]) if kind == 0 else env.any_of([t, ev])
+        holder["cond"] = cond
+        holder["t"] = t
+        while True:
+            try:
+                v = yield cond
+                log.append(("victim", env.now, tuple(sorted(str(x) for x in v.todict().values()))))
+                return
+            except Interrupt as i:
+                log.append(("intr", env.now, i.cause))
+
+    def cowaiter():
+        yield env.timeout(0)
+        v = yield holder["cond"]
+        log.append(("cow", env.now, tuple(sorted(str(x) for x in v.todict().values()))))
+
+    def setter():
+        if etime:
+            yield env.timeout(etime)
+        ev.succeed("ev")
+
+    def interrupter():
+        last = 0
+        for k, it in enumerate(sorted(itimes)):
+            if it > last:
+                yield env.timeout(it - last)
+                last = it
+            if vp.is_alive:
+                vp.interrupt(("i", k))
+                log.append(("issue", env.now, ("i", k)))
+    if order:
+        ip = env.process(interrupter())
+        vp = env.process(victim())
+    else:
+        vp = env.process(victim())
+        ip = env.process(interrupter())
+    env.process(setter())
+    if cow:
+        env.process(cowaiter())
+    err = None
+    try:
+        env.run(until=20)
+    except BaseException as e:  # noqa
+        err = type(e).__name__
+    res.digest = (kind, tdelay, etime, tuple(itimes), cow, order, tuple(log), err)
+    res.nontrivial = any(x[0] == "intr" for x in log)
+    for c in ("C04.keep", "C04.deliver", "C04.detach"):
+        res.ev(c)
+    when = max(tdelay, etime) if kind == 0 else min(tdelay, etime)
+    issued = [x for x in log if x[0] == "issue"]
+    got = [x for x in log if x[0] == "intr"]
+    if err:
+        res.bad("C04.deliver", "condition-target:run-raised-%s" % err, "%r" % (res.digest,))
+        return res
+    if [(x[1], x[2]) for x in issued] != [(x[1], x[2]) for x in got]:
+        res.bad("C04.deliver", "condition-target:interrupts-not-delivered-in-order-at-the-issue-instant", "issued %r received %r" % (issued, got))
+        return res
+    vic = [x for x in log if x[0] == "victim"]
+    if len(vic) != 1 or vic[0][1] != when:
+        res.bad("C04.keep", "condition-target:re-yielded-condition-%s" % ("never-fires" if not vic else "fires-at-the-wrong-instant"),
+                "%s(timeout %d, event at %d), interrupts at %r: victim log %r, expected to resume at %d" % (["all_of", "any_of"][kind], tdelay, etime, itimes, vic, when))
+        return res
+    if cow:
+        cw = [x for x in log if x[0] == "cow"]
+        if len(cw) != 1 or cw[0][1] != when:
+            res.bad("C04.keep", "condition-target:co-waiter-lost-the-condition's-outcome", "co-waiter log %r, expected at %d" % (cw, when))
     return res
